@@ -349,6 +349,21 @@ def scale_supports(ctx, rng):
         m = rng.choice([3, 3, 4])
         k = rng.randint(130, 260) // m
         put("ring-of-small-cliques+isolated", k * m + rng.randint(1, 4), rc.s_clique_ring(k, m), "many-nodes")
+    # beyond the block / buffer constants a blocked implementation would use (the library's own
+    # buffered loop, agreement(), works in blocks of 1000): 1001..1300 nodes, never a multiple of a
+    # round block size, sparse (ring of small cliques + chords + isolated nodes), triangles everywhere
+    for rep in range(1 if ctx.quick else 3):
+        m = rng.choice([3, 4])
+        k = rng.randint(1001 // m + 1, 1290 // m)
+        n = k * m + rng.randint(1, 7)
+        while n % 64 == 0 or n % 100 == 0:
+            n += 1
+        E = set(rc.s_clique_ring(k, m))
+        for _ in range(n // 3):
+            a, b = rng.randrange(k * m), rng.randrange(k * m)
+            if a != b:
+                E.add((min(a, b), max(a, b)))
+        put("ring-of-small-cliques+chords+isolated", n, sorted(E), "beyond-1000")
     if not ctx.quick:
         for n in (rng.randint(26, 45), rng.randint(46, 60)):
             put("complete", n, rc.s_complete(n), "dense")             # every value exactly 1
@@ -365,6 +380,14 @@ def scale_jobs(ctx):
         lay = lambda: rng.choice(rc.LAYOUTS)
         und_fns = UND_BIN if n <= 45 else [f for f in UND_BIN if f in NO_LOOPS]
         ones = cmat(n, E, True, lambda i, j: 1)
+        if regime == "beyond-1000":  # one call per routine (records of a megabyte each)
+            arcs = rc.orient(rng, E)
+            dones = cmat(n, arcs, False, lambda i, j: 1)
+            add_jobs(jobs, [FN_BU, FN_TBU, FN_WU, FN_TWU], ones, 1, src, rng.choice(["float", "int", "int32"]), "C",
+                     mapping=scale_dtype)
+            add_jobs(jobs, [FN_BD, FN_TBD, FN_WD, FN_TWD], dones, 1, src + "-dir", rng.choice(["float", "int"]), "C",
+                     mapping=scale_dtype)
+            continue
         if rng.random() < 0.5:      # orient: every connection one way, the other way, or both
             arcs = rc.orient(rng, E)
         else:                       # a reciprocal core (low-numbered nodes), the rest low -> high
